@@ -177,6 +177,41 @@ def run_explicit(case):
     return d, res
 
 
+def outage_histories():
+    """scripted histories the random prefixes rarely reach: the session (or its handshake) ends in one of several ways and the
+    peer is then unreachable - every attempt refused or unanswered - for a span that lets every timer armed before (the
+    4-minute wait for the peer's OPEN included) run out; -> (cfg, head, failure kind, span)"""
+    heads = [[['ok'], ['close']], [['ok'], ['open', 'valid', 90], ['close']], [['ok'], ['open', 'valid', 90], ['ka'], ['close']],
+             [['ok'], ['open', 'valid', 90], ['ka'], ['bad_marker']], [['ok'], ['open', 'h0', 0], ['ka'], ['notif', 'other']],
+             [['ok'], ['open', 'badas', 90]], [['refused'], ['tick'], ['ok'], ['close']], [['ok'], ['notif', 'ver']]]
+    for cfg in (CONFIGS[0], CONFIGS[1], CONFIGS[3]):
+        for head in heads:
+            for fail in ('refused', 'timeout'):
+                for span in (100, 238, 242, 500):
+                    yield cfg, head, fail, span
+
+
+def outage_events(cfg, head, fail, span):
+    """-> the explicit event list of one outage history (computed by driving a scratch agent)"""
+    fresh_open(cfg)
+    d = Driver(cfg, model=False)
+    d.apply(['boot'])
+    for ev in head:
+        if list(ev) not in d.enabled():
+            return None
+        d.apply(list(ev))
+    end = d.sim.now + span
+    guard = 0
+    while d.sim.now < end and guard < 600:
+        guard += 1
+        en = d.enabled()
+        ev = [fail] if [fail] in en else (['tick'] if ['tick'] in en else None)
+        if ev is None:
+            break
+        d.apply(ev)
+    return list(d.history)
+
+
 def run_multi(case, explicit=False):
     """the same property in the multi-connection regime of C12: connect-retry below the TCP timeout, and the
     connectionLost after the agent's own close delivered as an event of its own (possibly after the next attempt started)"""
@@ -222,6 +257,7 @@ def shards(tier):
     n = 1500 if tier == 'quick' else 30000
     out = [{'name': 'prefixes-%d' % i, 'kind': 'hyp', 'examples': n, 'hypothesis': True,
             'steps': 14 if tier == 'quick' else 30} for i in range(8 if tier == 'quick' else 16)]
+    out.append({'name': 'outages', 'kind': 'outages'})
     out += [{'name': 'multi-%d' % i, 'kind': 'multi', 'examples': 600 if tier == 'quick' else 12000, 'hypothesis': True,
              'steps': 20 if tier == 'quick' else 40} for i in range(4 if tier == 'quick' else 8)]
     return out
@@ -233,6 +269,17 @@ MULTI_CONFIGS = [{'hold': 180, 'idle_hold': 30, 'connect_retry': 60}, {'hold': 1
 
 
 def run_shard(spec, seed, col, tier):
+    if spec['kind'] == 'outages':
+        for cfg, head, fail, span in outage_histories():
+            events = outage_events(cfg, head, fail, span)
+            if events is None:
+                continue
+            case = {'cfg': cfg, 'events': events}
+            d, res = run_explicit(case)
+            col.case(case, True, labels=['outage:%s:%d' % (fail, span)])
+            for sig, detail in res:
+                col.fail(sig, case, detail)
+        return
     if spec['kind'] == 'multi':
         def mbody(case):
             d, res = run_multi(case)
